@@ -1,2 +1,189 @@
-// Package c18: correspondence harness for property C18 (stub — registers nothing yet).
+// Package c18: correspondence harness for property C18 ("a restarted core kills
+// what it no longer owns, and only that") through the whole-core simulator.
+//
+//	input  := (K KV0 (ACTION…))      K tasks per environment, KV0: mesos_fid pre-seeded
+//	ACTION := (env POINT) | (kill) | (term) | (drop clean|abrupt) | (destroy N)
+//	POINT  := launching | configuring | configured | starting | running | stopping | standby | teardown | destroyed
+//	obs    := (EV…)  see world.go:observation and lean/Driver/C18.lean
 package c18
+
+import (
+	"os"
+	"regexp"
+	"strings"
+
+	"verifharness/fw"
+	"verifharness/rng"
+	"verifharness/sim"
+	"verifharness/sx"
+)
+
+var disturbances = []action{{"kill", ""}, {"term", ""}, {"drop", "clean"}, {"drop", "abrupt"}}
+
+func mk(k int, kv0 bool, acts ...action) *scenario { return &scenario{k: k, kv0: kv0, acts: acts} }
+
+func cs(s *scenario, tags ...string) fw.Case { return fw.Case{Input: s.String(), Tags: tags} }
+
+func distTag(d action) string {
+	if d.arg != "" {
+		return d.kind + "-" + d.arg
+	}
+	return d.kind
+}
+
+// the deterministic grid: every point of an environment's life x every disturbance
+func grid() []fw.Case {
+	var out []fw.Case
+	n := 0
+	for _, d := range disturbances {
+		// before anything was launched
+		out = append(out, cs(mk(1, false, d), "point:idle", "dist:"+distTag(d)))
+	}
+	for _, p := range points {
+		for _, d := range disturbances {
+			n++
+			out = append(out, cs(mk(1+n%2, false, action{"env", p}, d), "point:"+p, "dist:"+distTag(d)))
+		}
+	}
+	// a healthy second environment next to the one at the critical point
+	for _, p := range []string{"launching", "configuring", "starting", "stopping", "teardown"} {
+		for _, d := range []action{{"kill", ""}, {"drop", "abrupt"}} {
+			out = append(out, cs(mk(2, false, action{"env", "running"}, action{"env", p}, d), "two-envs", "point:"+p, "dist:"+distTag(d)))
+		}
+	}
+	// sequences: the new life owns tasks of its own when the next disturbance comes
+	seqs := [][]action{
+		{{"env", "configured"}, {"kill", ""}, {"env", "configured"}, {"drop", "abrupt"}},
+		{{"env", "running"}, {"drop", "clean"}, {"env", "configured"}, {"kill", ""}},
+		{{"env", "configured"}, {"kill", ""}, {"kill", ""}},
+		{{"env", "running"}, {"term", ""}, {"env", "running"}, {"term", ""}},
+		{{"env", "configured"}, {"drop", "abrupt"}, {"drop", "clean"}},
+		{{"env", "configured"}, {"kill", ""}, {"env", "running"}, {"kill", ""}, {"env", "configured"}, {"kill", ""}},
+		{{"env", "running"}, {"destroy", "0"}, {"kill", ""}},
+		{{"env", "configured"}, {"env", "configured"}, {"destroy", "0"}, {"drop", "abrupt"}},
+	}
+	for i, s := range seqs {
+		out = append(out, cs(mk(1+i%3, false, s...), "sequence"))
+	}
+	// an earlier installation left a framework id behind
+	out = append(out,
+		cs(mk(1, true, action{"drop", "clean"}), "kv0"),
+		cs(mk(2, true, action{"env", "configured"}, action{"kill", ""}), "kv0"),
+		cs(mk(1, true, action{"env", "running"}, action{"term", ""}, action{"env", "configured"}, action{"drop", "abrupt"}), "kv0"))
+	return out
+}
+
+func randomScenario(r *rng.R) fw.Case {
+	s := &scenario{k: r.Range(1, 3), kv0: r.P(1, 8)}
+	nd := r.Range(1, 3)
+	envs := 0
+	for d := 0; d < nd; d++ {
+		ne := r.Range(0, 2)
+		if envs+ne > 3 {
+			ne = 3 - envs
+		}
+		for i := 0; i < ne; i++ {
+			s.acts = append(s.acts, action{"env", rng.Pick(r, points)})
+			envs++
+		}
+		if envs > 0 && r.P(1, 6) {
+			s.acts = append(s.acts, action{"destroy", string(rune('0' + r.N(envs)))})
+		}
+		s.acts = append(s.acts, rng.Pick(r, disturbances))
+	}
+	return cs(s, "random")
+}
+
+func generate(tier string, r *rng.R) []fw.Case {
+	out := grid()
+	n := 12
+	if tier == "thorough" {
+		n = 320
+	}
+	for i := 0; i < n; i++ {
+		out = append(out, randomScenario(r.Fork()))
+	}
+	return out
+}
+
+func search(r *rng.R) []fw.Case {
+	var out []fw.Case
+	for i := 0; i < 60; i++ {
+		out = append(out, randomScenario(r.Fork()))
+	}
+	return out
+}
+
+func runImpl(input string) (string, error) {
+	sc, err := parseScenario(input)
+	if err != nil {
+		return "(badinput)", nil
+	}
+	return runScenario(sc, os.Getenv("C18_VERBOSE") != "")
+}
+
+var reRealRecon = regexp.MustCompile(`\(upd t\d+ \w+ recon 1\)`)
+
+// non-trivial: the master answered a reconciliation about at least one real task
+// (so there was something to kill or to spare)
+func nontrivial(input, obs string) bool { return reRealRecon.MatchString(obs) }
+
+func shrink(input string) []string {
+	sc, err := parseScenario(input)
+	if err != nil {
+		return nil
+	}
+	var out []string
+	for i := range sc.acts {
+		c := &scenario{k: sc.k, kv0: sc.kv0}
+		c.acts = append(append([]action{}, sc.acts[:i]...), sc.acts[i+1:]...)
+		if _, err := parseScenario(c.String()); err == nil && len(c.acts) > 0 {
+			out = append(out, c.String())
+		}
+	}
+	if sc.k > 1 {
+		out = append(out, (&scenario{k: sc.k - 1, kv0: sc.kv0, acts: sc.acts}).String())
+	}
+	if sc.kv0 {
+		out = append(out, (&scenario{k: sc.k, acts: sc.acts}).String())
+	}
+	return out
+}
+
+var _ = sx.A
+var _ = strings.TrimSpace
+var _ = sim.IsInfra
+
+func init() {
+	fw.RegisterGen(fw.GenFile{Name: "C18Facts.lean", Make: genFacts})
+	fw.Register(&fw.Property{
+		ID:         "C18",
+		Generate:   generate,
+		RunImpl:    runImpl,
+		Nontrivial: nontrivial,
+		Rule: "the REAL core (child process: core.NewConfig, task.Manager + mesos-go controller, environment.Manager, gRPC server) against the whole-core " +
+			"simulator (Mesos master with persistent task table and framework id, Consul KV, workflow repository). GRID (exhaustive over the listed points): " +
+			"{no environment, launching (LAUNCH parked), configuring (CONFIGURE reply parked), CONFIGURED, starting (START reply parked), RUNNING, stopping " +
+			"(STOP reply parked), STANDBY after RESET, mid-teardown (KILL reaction parked), destroyed} x {SIGKILL+restart, SIGTERM+restart, stream dropped " +
+			"cleanly, stream reset abruptly}, 1-2 tasks; the five in-flight points again next to a second RUNNING environment; 8 sequences of 2-3 " +
+			"disturbances with environments created by the new life in between; 3 scripts with mesos_fid pre-seeded. RANDOM: 12 (thorough 320) scripts of 1-3 " +
+			"disturbances, 0-3 environments at random points, 1-3 tasks, optional destroy. Every disturbance is bracketed by barrier-ordered quiet points " +
+			"(GetTasks, GetEnvironments, mesos_fid, master's live rows). non-trivial = the master answered a reconciliation about at least one real task; distinct by input text",
+		Shrink:  shrink,
+		Search:  search,
+		Workers: 8,
+		Exhaustive: func(string) bool { return false },
+		TrustedBase: []string{
+			"harness/sim (whole-core simulator: Mesos master/agents/executors, Consul KV, workflow repository; core child through core.RunForVerif) + sim.InjectUpdate (added for the barrier)",
+			"harness/props/c18/world.go: scripts, barrier-based quiescence, projection of the master trace (tasks, environments, framework ids renamed by first appearance)",
+			"lean/Driver/C18.lean: the monitor that replays the observed trace as a history of Model/Reconcile.lean and rebuilds the log the Spec is evaluated on",
+			"go/ast fact extraction harness/props/c18/facts.go",
+		},
+		Assumptions: []string{
+			"Mesos' reconciliation semantics as documented upstream (implicit reconciliation is answered with the latest state of every non-terminal task of the framework; SUBSCRIBE with a framework id keeps it); the simulator stands in for the master",
+			"the configuration store answers the read of aliecs/mesos_fid at start-up and accepts its write (the core cannot start without it); nobody else writes the key",
+			"one core process at a time; the framework is not PARTITION_AWARE (no TASK_UNREACHABLE)",
+			"quiescence is established by a barrier (a reconciliation update about an unknown task, answered by a KILL), which relies on taskman handling its channel sequentially and on the KILL call being synchronous — both read in core/task/manager.go",
+		},
+	})
+}
